@@ -104,10 +104,14 @@ def location(project, source, position, filename=None, debug=False):
 
     locs = []
     for r in result:
-        if isinstance(r, list):
-            locs.append([_loc(n.declared_at, n.filename) for n in r])
-        else:
-            locs.append(_loc(r.declared_at, r.filename))
+        # builtins and compiled modules have no source location: skip them
+        alts = [_loc(n.declared_at, n.filename)
+                for n in (r if isinstance(r, list) else [r])
+                if hasattr(n, 'declared_at')]
+        if not isinstance(r, list):
+            locs.extend(alts)
+        elif alts:
+            locs.append(alts)
 
     return locs
 
